@@ -9,6 +9,7 @@ All-concrete inputs make the interpreter a plain IR emulator, which is how it is
 against the natively compiled kernels on every run (translator validation).
 """
 import math
+import threading
 import time
 from fractions import Fraction
 import z3
@@ -21,6 +22,11 @@ INT_RANGE = {'i1': (0, 1), 'i8': (-2 ** 7, 2 ** 7 - 1), 'i16': (-2 ** 15, 2 ** 1
 
 
 class BoundExceeded(Exception):
+    pass
+
+
+class Runaway(BoundExceeded):
+    """the path keeps accessing memory outside its objects (e.g. a scan loop that ran off a buffer): stop following it"""
     pass
 
 
@@ -174,7 +180,16 @@ class Exec:
         if xr.Eps.active and xr.Eps.constraints:
             s.add(*xr.Eps.constraints)
         t = time.time()
-        r = s.check()
+        # the z3 timeout is not honoured inside some preprocessing steps (polynomial rewriting): a watchdog interrupts the context
+        wd = threading.Timer((timeout_ms or self.timeout_ms) / 1000.0 + 3.0, z3.main_ctx().interrupt)
+        wd.daemon = True
+        wd.start()
+        try:
+            r = s.check()
+        except z3.Z3Exception:
+            r = z3.unknown
+        finally:
+            wd.cancel()
         self.stats.solver_time += time.time() - t
         self.stats.queries += 1
         rs = str(r)
@@ -256,6 +271,10 @@ class Exec:
 
     def viol(self, path, kind, cond, fn, ins, var='', detail=''):
         path.viols.append(Viol(kind, cond, fn.name, ins.line if ins is not None else None, var, detail))
+        if cond is True and kind in ('oob-read', 'oob-write', 'null-deref', 'use-after-free'):
+            path.definite_oob = getattr(path, 'definite_oob', 0) + 1
+            if path.definite_oob > 12:
+                raise Runaway('%s: more than 12 definite out-of-object accesses on one path' % fn.name)
 
     def ptrname(self, fn, ins, p):
         return p.obj.name
@@ -408,6 +427,12 @@ class Exec:
         conc = is_concrete_int(a) and is_concrete_int(b)
         lo, hi = INT_RANGE[ty]
         if op in ('add', 'sub', 'mul'):
+            if op == 'mul' and not conc:
+                # x * (c ? 1 : 0) stays linear as (c ? x : 0)
+                if not is_concrete_int(b) and is_flag_int(b):
+                    return z3.If(b.arg(0), a, 0) if not is_concrete_int(a) or a != 1 else b
+                if not is_concrete_int(a) and is_flag_int(a):
+                    return z3.If(a.arg(0), b, 0) if not is_concrete_int(b) or b != 1 else a
             r = a + b if op == 'add' else (a - b if op == 'sub' else a * b)
             if conc:
                 if not (lo <= r <= hi):
